@@ -54,13 +54,16 @@ func (fr *frame) get(key ssa.Value) Value {
 }
 
 func (m *Machine) globalAddr(g *ssa.Global) *Value {
-	if p, ok := m.globals[g]; ok {
-		return p
-	}
-	if g.Pkg != nil && !m.inInit {
-		if why, bad := m.Tainted[g.Pkg.Pkg.Path()]; bad && !m.TaintOK[g.Pkg.Pkg.Path()] {
+	if g.Pkg != nil && !m.inInit && !m.TaintOK[g.Pkg.Pkg.Path()] {
+		if why, bad := m.Tainted[g.Pkg.Pkg.Path()]; bad {
 			m.unsupported("global %s of a package whose initialiser was not completed: %s", g, why)
 		}
+		if !m.initPkg[g.Pkg] {
+			m.unsupported("global %s of a package whose initialiser was never reached (an importer is not on the init allow list); name it in init_extra", g)
+		}
+	}
+	if p, ok := m.globals[g]; ok {
+		return p
 	}
 	p := new(Value)
 	*p = m.zero(g.Type().(*types.Pointer).Elem())
@@ -478,6 +481,13 @@ func fnKey(fn *ssa.Function) string {
 
 func (m *Machine) callSSA(caller *frame, pos token.Pos, fn *ssa.Function, args []Value, env []Value) Value {
 	m.FuncsEntered[fn]++
+	if m.Trace {
+		d := 0
+		for f := caller; f != nil; f = f.caller {
+			d++
+		}
+		m.tracef("%*scall %s\n", d, "", fn)
+	}
 	if fn.Parent() == nil {
 		if fn.Synthetic == "package initializer" {
 			return m.runPkgInit(caller, pos, fn)
@@ -726,6 +736,13 @@ func (m *Machine) InitAll(pkg *ssa.Package) {
 	t := m.newThread("init")
 	m.cur = t
 	m.ensureInit(pkg)
+	for _, path := range m.InitExtra {
+		for _, p := range m.Prog.AllPackages() {
+			if p.Pkg.Path() == path {
+				m.ensureInit(p)
+			}
+		}
+	}
 	m.ConcOn = false
 	m.threads = nil
 	m.undo = m.undo[:0]
